@@ -154,3 +154,63 @@ end Pepit.C05
 
 #print axioms Pepit.C05.sent_count_cons
 #print axioms Pepit.C05.sent_count_psd
+
+/-! ### what the cvxpy back-end is given for one matrix inequality (`Model/Cvx`, tied to the real
+`CvxpyWrapper` by the `dump.cvx` op of the collect stream) -/
+
+namespace Pepit.C05
+
+theorem mem_psdEntries (id n i j : Nat) (hi : i < n) (hj : j < n) : SolverCon.psdEntry id i j ∈ psdEntries id n := by
+  unfold psdEntries
+  rw [List.mem_flatMap]
+  exact ⟨i, List.mem_range.mpr hi, List.mem_map.mpr ⟨j, List.mem_range.mpr hj, rfl⟩⟩
+
+/-- **every entry of every declared matrix inequality reaches the solver**: for each LMI item of shape `n × n`
+and ALL `i, j < n` — above, on and below the diagonal — the equality `M[i, j] == entry_ij` is among the
+solver constraints (so the declared matrix, whose entries `(i, j)` and `(j, i)` may be written differently,
+is forced to be the symmetric PSD variable `M`) -/
+theorem lmi_entries_complete (items : List Item) (id n : Nat) (h : Item.psd id n ∈ items)
+    (i j : Nat) (hi : i < n) (hj : j < n) :
+    SolverCon.psdEntry id i j ∈ emit items ∧ SolverCon.psdMain id ∈ emit items := by
+  unfold emit
+  refine ⟨List.mem_cons_of_mem _ ?_, List.mem_cons_of_mem _ ?_⟩
+  · rw [List.mem_flatMap]
+    exact ⟨Item.psd id n, h, by simp only [emitItem]; exact List.mem_cons_of_mem _ (mem_psdEntries id n i j hi hj)⟩
+  · rw [List.mem_flatMap]
+    exact ⟨Item.psd id n, h, by simp [emitItem]⟩
+
+/-- and every scalar constraint item gives exactly one solver constraint, of its own -/
+theorem scalar_reaches (items : List Item) (id : Nat) (h : Item.cons id ∈ items) : SolverCon.scalar id ∈ emit items := by
+  unfold emit
+  refine List.mem_cons_of_mem _ ?_
+  rw [List.mem_flatMap]
+  exact ⟨Item.cons id, h, by simp [emitItem]⟩
+
+/-- nothing else is emitted: every solver constraint is the Gram LMI or comes from a declared item -/
+theorem emit_only (items : List Item) (c : SolverCon) (h : c ∈ emit items) :
+    c = .gram ∨ (∃ id, c = .scalar id ∧ Item.cons id ∈ items) ∨
+      (∃ id n, Item.psd id n ∈ items ∧ (c = .psdMain id ∨ ∃ i j, i < n ∧ j < n ∧ c = .psdEntry id i j)) := by
+  unfold emit at h
+  rcases List.mem_cons.mp h with h | h
+  · exact Or.inl h
+  · rw [List.mem_flatMap] at h
+    obtain ⟨it, hit, hc⟩ := h
+    cases it with
+    | cons id =>
+      simp only [emitItem, List.mem_singleton] at hc
+      exact Or.inr (Or.inl ⟨id, hc, hit⟩)
+    | psd id n =>
+      simp only [emitItem, List.mem_cons] at hc
+      rcases hc with hc | hc
+      · exact Or.inr (Or.inr ⟨id, n, hit, Or.inl hc⟩)
+      · unfold psdEntries at hc
+        rw [List.mem_flatMap] at hc
+        obtain ⟨i, hi, hc⟩ := hc
+        rw [List.mem_map] at hc
+        obtain ⟨j, hj, rfl⟩ := hc
+        exact Or.inr (Or.inr ⟨id, n, hit, Or.inr ⟨i, j, List.mem_range.mp hi, List.mem_range.mp hj, rfl⟩⟩)
+
+end Pepit.C05
+
+#print axioms Pepit.C05.lmi_entries_complete
+#print axioms Pepit.C05.emit_only
